@@ -48,6 +48,10 @@ def fe_alphabet():
 
 
 FE = fe_alphabet()
+# first-difference alphabet of the ">= p" comparison (every limb of both field layouts as the deciding position, adversarial lower
+# part); used by the unary phase (normalize*, set_b32_limit, ...) only - the binary phases would square its size
+_lt, _ge = cmp_chain(P)
+FE_CHAIN = [v for v in _lt + _ge if v not in FE]
 FE_SMALL = [0, 1, 2, P - 1, P, 2**256 - 1, 2**32 + 977, (1 << 52) - 1 << 52, BETA, (P + 1) // 2, 2**255, i32(seeded_fillers(1, b"c05s")[0])]
 
 
@@ -826,6 +830,11 @@ def sha_state_case(env, case, st):
                 st.fail("SHA-256 of a %d-byte message differs from the standard (ctx %s)" % (o, cname), {"cfg": L.config, "len": o, "ctx": cname})
                 break
         st.calls += Ln + 1
+    z = L.verif_sha256_zero_block_calls()
+    if z and not getattr(env, "zero_reported", False):
+        env.zero_reported = True
+        st.fail("the library called the installed SHA-256 compression function with n_blocks == 0 (%d calls so far); the header documents it as processing ONE OR MORE blocks, so a replacement that is correct for n_blocks >= 1 would corrupt every hash" % z,
+                {"cfg": L.config, "len": Ln})
     st.states.add(Ln)
     st.nt(Ln)
     st.sample({"message_length": Ln, "states": Ln + 1, "transitions": tr.value})
@@ -932,9 +941,9 @@ def main():
             sc.append(v)
     for cfg in cfgs:
         main_cfg = cfg in ("prod-san", "prod-verify") or thorough
-        fe = FE if main_cfg else FE[::2] + FE_SMALL
+        fe = (FE if main_cfg else FE[::2] + FE_SMALL) + FE_CHAIN
         run_phase(run, "%s/field-unary" % cfg, fe_unary_case, [(thorough, c) for c in chunks(fe, 4)], setup=setup(cfg),
-                  rule="19 unary field operations on the FE alphabet (%d values: 0,1,p+-k,2^256-1,2^k/2^k+-1 at every limb boundary of both layouts, alternating/single max-limb patterns, beta, fillers) x every admissible magnitude construction (mul_int, get_bounds+add, negate chains) vs arithmetic mod p" % len(fe))
+                  rule="19 unary field operations on the FE alphabet (%d values: 0,1,p+-k,2^256-1,2^k/2^k+-1 at every limb boundary of both layouts, alternating/single max-limb patterns, beta, fillers, and the first-difference chain of the >= p comparison: for the lowest / highest / middle bit of every limb of the 26-, 52-, 32- and 64-bit partitions the value that agrees with p above it, differs there and is all-ones / all-zero below) x every admissible magnitude construction (mul_int, get_bounds+add, negate chains) vs arithmetic mod p" % len(fe))
         fb = FE if main_cfg else FE[::3]
         run_phase(run, "%s/field-binary" % cfg, fe_binary_case, [(x, fb, thorough) for x in fb], setup=setup(cfg),
                   rule="mul (incl. aliased), add, equal, cmp_var, cmov, storage_cmov on FE x FE x magnitude pairs within the documented preconditions")
